@@ -28,6 +28,8 @@ type Schema struct {
 	ObjectForm bool
 	// HasFields/HasSymbols/HasSize...: which attributes were present in the JSON
 	Has map[string]bool
+	// BareRef: (generator/renderer hint only) a bare-string reference to a named type, even if the name is a keyword
+	BareRef bool
 }
 
 type Field struct {
